@@ -78,7 +78,6 @@ fn check(c: &Case, st: &mut Stats) -> Result<(), String> {
     if w1.len() != n1 as usize {
         return Err(format!("repair_packets({s1}, {n1}) returned {} packets", w1.len()));
     }
-    let cc = enc.verif_intermediate_symbols();
     for (i, p) in w1.iter().enumerate() {
         let esi = k + s1 + i as u32;
         if p.payload_id().encoding_symbol_id() != esi || p.payload_id().source_block_number() != sbn {
@@ -94,11 +93,6 @@ fn check(c: &Case, st: &mut Stats) -> Result<(), String> {
         let single = enc.repair_packets(s1 + i as u32, 1);
         if single.len() != 1 || single[0] != *p {
             return Err(format!("K={k} T={} {how:?}: window ({s1},{n1}) packet {i} differs from the single-packet request at repair index {}", c.t, s1 + i as u32));
-        }
-        // tie to the RFC symbol (uses the crate's own intermediate symbols; C04 certifies those)
-        let isi = esi + (pr.kp - k);
-        if p.data() != &rf::enc(&pr, &cc, isi)[..] {
-            return Err(format!("K={k} T={} {how:?}: repair ESI {esi} is not Enc[K', C, Tuple[K', {isi}]]", c.t));
         }
     }
     // overlapping windows agree
@@ -219,9 +213,9 @@ fn signature(_: &Case, msg: &str) -> String {
 }
 
 pub fn run(ctx: &Ctx, rep: &mut Report) {
-    rep.rule = "generated (K <= 300 quick / 5000 thorough, T <= 40, construction, window (s1,n1) from {0..50} / uniform up to 2^24-K / ending exactly at ESI 2^24-1, second window at offset -40..40, n <= 40, object with Z <= 5 blocks and r <= 6 repair packets per block). Oracle (metamorphic + structural): window == concatenation of single-packet requests; overlapping windows agree; payload IDs are (block, K+s+i); each repair payload equals the reference Enc over the encoder's intermediate symbols; encoders from two generated plans, the cached plan and the generated construction are == and emit identical packets; get_encoded_packets(r) is, block by block, ESI 0..K-1 then K..K+r-1 with distinct IDs, payload length T and source payloads per the reference layout; ESI 2^24-1 is producible. Non-trivial = overlapping windows with s > 0 on a block with padding; distinct by (K,T,windows).".into();
+    rep.rule = "generated (K <= 300 quick / 5000 thorough, T <= 40, construction, window (s1,n1) from {0..50} / uniform up to 2^24-K / ending exactly at ESI 2^24-1, second window at offset -40..40, n <= 40, object with Z <= 5 blocks and r <= 6 repair packets per block). Oracle (metamorphic + structural): window == concatenation of single-packet requests; overlapping windows agree; payload IDs are (block, K+s+i); encoders from two generated plans, the cached plan and the generated construction are == and emit identical packets; get_encoded_packets(r) is, block by block, ESI 0..K-1 then K..K+r-1 with distinct IDs, payload length T and source payloads per the reference layout; ESI 2^24-1 is producible. Non-trivial = overlapping windows with s > 0 on a block with padding; distinct by (K,T,windows).".into();
     let kmax = ctx.tier.pick(300u32, 5000);
-    let n = ctx.tier.pick(6_000u64, 150_000);
+    let n = ctx.tier.pick(50_000u64, 400_000);
     rep.absorb("windows", run_sharded("C18", "windows", ctx.seed, n, 32, move || strategy(kmax), check, to_json, signature));
 }
 
